@@ -268,16 +268,16 @@ _CFG = {'tier': 'quick'}
 
 def make_bases(ctx):
     del _BASES[:]
-    for raw in (True, False):
+    for name, raw, naming in (('raw', True, 'ks'), ('noraw', False, 'ks'), ('alf', False, 'alf')):
         spec = {'n_spikes': 8, 'n_templates': 3, 'n_channels': 4, 'nsw': 4, 'n_raw': 40,
                 'spike_templates': [0, 1, 2, 0, 0, 1, 0, 2], 'raw': raw, 'features': 'absent',
-                'tfeatures': 'absent', 'whitening_inv': True, 'fill': ctx.seed,
+                'tfeatures': 'absent', 'whitening_inv': True, 'fill': ctx.seed, 'naming': naming,
                 'channel_map': 'perm' if raw else 'identity'}
-        _BASES.append({'name': 'raw' if raw else 'noraw', 'spec': spec})
+        _BASES.append({'name': name, 'spec': spec})
 
 
 def expand(key, hist, acc):
-    base = _BASES[0] if key[0] == 'raw' else _BASES[1]
+    base = [b for b in _BASES if b['name'] == key[0]][0]
     succ = []
     for ev in alphabet(_CFG['tier']):
         with core.Scratch() as d:
@@ -288,7 +288,7 @@ def expand(key, hist, acc):
                     w.apply(tuple(e))
                 if not w.enabled(ev):
                     continue
-                if base['name'] == 'noraw' and ev[0] == 'subset' and ev[1] == 1:
+                if base['name'] != 'raw' and ev[0] == 'subset' and ev[1] == 1:
                     continue
                 try:
                     w.apply(ev)
@@ -328,6 +328,7 @@ def explore(ctx):
             w.dispose()
     n, dd, fix = core.bfs(ctx, expand, roots, max_depth=depth, sweep='histories', chunk=4)
     ctx.bounds = {'events': len(alphabet(ctx.tier)), 'depth': depth, 'bases': [b['name'] for b in _BASES]}
+    ctx.notes['alf_base_depth'] = 'the ALF-named base is explored like the others'
     ctx.notes['depth_completed'] = dd
     ctx.rule = ('state = (directory content digest, live-model descriptor) reached by an event history '
                 'on a generated dataset, rebuilt per transition by replaying the history on a fresh '
